@@ -197,7 +197,9 @@ def _parse_csv_with_units(
                 return x
         return x
 
-    df_data = df_data.applymap(_to_number_maybe)
+    # DataFrame.applymap was removed in pandas 3 (renamed DataFrame.map in 2.1)
+    elementwise = df_data.map if hasattr(df_data, "map") else df_data.applymap
+    df_data = elementwise(_to_number_maybe)
 
     units_map = dict(zip(col_names, col_units))
 
